@@ -151,8 +151,10 @@ def apply_myst_transforms(document):
     from myst_parser.mdit_to_docutils import transforms as T
     from docutils.transforms import Transformer
     tr = Transformer(document)
-    tr.add_transforms([T.SortFootnotes, Footnotes, T.UnreferencedFootnotesDetector, T.CollectFootnotes,
-                       T.ResolveAnchorIds])
+    trs = [T.SortFootnotes, Footnotes, T.UnreferencedFootnotesDetector, T.CollectFootnotes, T.ResolveAnchorIds]
+    if hasattr(document.settings, "env"):      # the Sphinx parser does not register the detector
+        trs.remove(T.UnreferencedFootnotesDetector)
+    tr.add_transforms(trs)
     tr.apply_transforms()
     return document
 
@@ -235,11 +237,9 @@ class SphinxDriver:
         st.halt_level = 5
         doc = new_document(os.path.join(self.src, "index.md"), st)
         parser = MystParser()
-        try:
-            with sphinx_domains(self.app.env):
-                parser.parse(text, doc)
-        finally:
-            self.app.env.current_document.docname = ""
+        with sphinx_domains(self.app.env):
+            parser.parse(text, doc)
+        # env.docname stays "index": transforms applied to the document afterwards read it
         return doc, self.warnings_text()
 
     def publish(self, text, config, post=True):
